@@ -90,7 +90,7 @@ func randomRun(c *Ctx, n int) (*Run, map[string]string) {
 		}
 		k := pick(c, 0, 0, 1, 1, 3, 4)
 		v := c.Rng.Intn(len(variantNames))
-		irt := pick(c, sp(id2), sp("id-0000000000"), sp(id[:len(id)-1]), sp(""), nil)
+		irt := pick(c, sp(id2), sp("id-0000000000"), sp(id[:len(id)-1]), sp(""), nil, sp(id+" "), sp(" "+id))
 		f := c.Rng.Intn(15)
 		if nconf == 0 && (f == 4 || f == 7 || f == 11 || f == 12 || f == 14) {
 			f = pick(c, 2, 3) // no confirmation to perturb: move a Conditions instant instead
